@@ -74,6 +74,8 @@ REWRITES = {
     "range_eq_deref": ("re", r"\*(\w+) == token\.range", r"range_eq(\1, &token.range)", "derived PartialEq for Range<usize> has no vstd spec; shim compares start and end (the derived definition)"),
     "string_replace_range": ("m2f", "replace_range", "string_replace_range", "", "String::replace_range has no vstd spec; shim with the std call (receiver is already `&mut String` in the lifted closure)"),
     "string_len": ("re", r"\btemp_text\.len\(\)", r"string_len(&temp_text)", "String::len (byte length) — shim with the std call"),
+    "flat_map_collect": ("chain_fmc", "", "", "xs.iter().flat_map(f).collect() -> shim with the same std body (R8)"),
+    "map_or_inline": ("opt_map_or", "", "", "Option::map_or(default, f) inlined as its std definition `match self { Some(x) => f(x), None => default }`"),
     "drop_const_fn": ("re", r"\bconst fn\b", "fn", "const fn that calls non-const shim"),
 }
 
@@ -185,6 +187,71 @@ def apply_rewrite(name, text):
         body = text[m.end():k - 1].strip()
         new = f"match {recv} {{ Some({m.group(1)}) => {wrap[0]}{body}{wrap[1]}, None => None }}"
         return text[:rs] + new + text[k:], {"rewrite": name, "why": why, "sites": [{"from": text[rs:k][:120], "to": new[:120]}]}
+    if spec[0] == "chain_fmc":
+        why = spec[3]
+        pat = re.compile(r"\.\s*iter\(\)\s*\.\s*flat_map\s*\(")
+        out, sites, pos = text, [], 0
+        while True:
+            m = pat.search(out, pos)
+            if not m:
+                break
+            dot = m.start()
+            rs = _postfix_chain_start(out, dot)
+            recv = re.sub(r"\s+", "", out[rs:dot])
+            depth, k = 1, m.end()
+            while depth:
+                if out[k] in "([{":
+                    depth += 1
+                elif out[k] in ")]}":
+                    depth -= 1
+                k += 1
+            clo = out[m.end():k - 1].strip()
+            tail = re.match(r"\s*\.\s*collect\(\)", out[k:])
+            if not tail:
+                pos = k
+                continue
+            new = f"flat_map_collect(&{recv}, {clo})"
+            sites.append({"from": out[rs:k + tail.end()][:120], "to": new[:120]})
+            out = out[:rs] + new + out[k + tail.end():]
+            pos = rs + 10
+        return out, {"rewrite": name, "why": why, "sites": sites}
+    if spec[0] == "opt_map_or":
+        why = spec[3]
+        pat = re.compile(r"\.\s*map_or\s*\(")
+        out, sites, pos = text, [], 0
+        while True:
+            m = pat.search(out, pos)
+            if not m:
+                break
+            dot = m.start()
+            rs = _postfix_chain_start(out, dot)
+            recv = out[rs:dot].strip()
+            depth, k = 1, m.end()
+            while depth:
+                if out[k] in "([{":
+                    depth += 1
+                elif out[k] in ")]}":
+                    depth -= 1
+                k += 1
+            args = out[m.end():k - 1]
+            # split default , |x| body   at the first top-level comma
+            depth, c = 0, 0
+            while not (args[c] == "," and depth == 0):
+                if args[c] in "([{":
+                    depth += 1
+                elif args[c] in ")]}":
+                    depth -= 1
+                c += 1
+            default, clo = args[:c].strip(), args[c + 1:].strip().rstrip(",").strip()
+            cm = re.match(r"\|\s*(\w+)\s*\|\s*(.*)$", clo, re.S)
+            if not cm:
+                pos = k
+                continue
+            new = f"match {recv} {{ Some({cm.group(1)}) => {cm.group(2)}, None => {default} }}"
+            sites.append({"from": out[rs:k][:100], "to": new[:100]})
+            out = out[:rs] + new + out[k:]
+            pos = rs + 6
+        return out, {"rewrite": name, "why": why, "sites": sites}
     raise LostAnchor(f"rewrite kind {spec[0]}")
 
 
@@ -540,6 +607,17 @@ def emit_block(blk, rel, out_lines, meta):
             else:
                 ins.append((toks[bf].start, payload + [("{", tl)], order))
                 ins.append((toks[bl].end, [(" }", tl)], order, "inline"))
+        elif d == "after_closure":
+            cm = re.match(r"\|(.*?)\|\s*(?:nth\s+(\d+)\s+of\s+(\d+)\s*)?$", arg.strip())
+            if not cm:
+                raise LostAnchor(f"{rel}:{tl}: bad after_closure directive")
+            toks = rscan.tokenize(text)
+            found = rscan.find_closures(text, toks, 0, len(toks), rscan.norm(cm.group(1)))
+            want = int(cm.group(3)) if cm.group(3) else 1
+            if len(found) != want:
+                raise LostAnchor(f"{rel}:{tl}: closure |{cm.group(1)}| occurs {len(found)} times in {record['path']}, expected {want}")
+            bo, bc, bf, bl, is_block = found[int(cm.group(2)) if cm.group(2) else 0]
+            ins.append((toks[bl].end, [(p_[0], p_[1]) for p_ in payload], order + 1000, "inline"))
         elif d == "loop":
             k_s = head.split()[0] if head else "0"
             if r.kind == "closure":
@@ -568,7 +646,7 @@ def emit_block(blk, rel, out_lines, meta):
         inline = len(x) > 3
         pieces.append((text[pos:off], False, None))
         if inline:
-            pieces.append((payload[0][0], True, None))
+            pieces.append((" ".join(pl_[0].strip() for pl_ in payload) if len(payload) > 1 else payload[0][0], True, None))
         else:
             pieces.append(("\n", True, None))
             for pl, tl in payload:
